@@ -211,6 +211,11 @@ def check(ctx, rep):
     rep.rule('R03.g', 'a command reports done / ends its stream only when its event and effect queues are empty, so no emitted event is dropped by its host', floor=3)
     c07.check_is_done(rep, 'R03.g', core)
     c07.check_stream_end(rep, 'R03.g', core)
+    # R03.k: the view read after a call reflects every event applied so far, whatever that call returned: the bridge's view entry points
+    # compute it from the model each time (a cached copy is stale after a call that failed once update had run) (shared with C09 R09.f)
+    from rules.props import c09 as _c09
+    rep.rule('R03.k', 'Bridge::view computes the view from the current model on every path (no cache)', floor=2)
+    _c09.check_fresh_view(rep, 'R03.k', core)
     # R03.j: an event a task emits after a join is applied only if the joining task is polled again: every task that leaves a command —
     # finished, aborted or evicted — publishes `finished` and wakes its join handles (shared with C07 R07.b)
     rep.rule('R03.j', 'every task that leaves a command publishes `finished` and wakes its join handles', floor=2)
